@@ -63,6 +63,7 @@ def encPyResult (r : Except Err PV) : Json :=
   match r with
   | .ok v => Json.mkObj [("ok", encPV v)]
   | .error (.missingExt f) => Json.mkObj [("err", s!"no external result for {f}")]
+  | .error (.user tag) => Json.mkObj [("err", "user"), ("tag", tag)]
   | .error e => Json.mkObj [("err", e.kind)]
 
 /-- `pyeval` op: fn, args, ext, depth, mode = value | env | vars (the return value and the final value of the
